@@ -1,9 +1,183 @@
 import RefurbVerif.Wire.Basic
+import RefurbVerif.Model.Types
+import RefurbVerif.Generated.SimpleTypes
 open Lean
 
 namespace RefurbVerif.Wire
+open RefurbVerif.Types
 
-/-- driver verbs of this group (filled in by the property that owns it) -/
-def handleTypes (_verb : String) (_j : Json) : Option Json := none
+/-- the rendering of harness/astjson.py `describe_type` (kinds the model does not distinguish become `other`) -/
+partial def toTy (j : Json) : Ty :=
+  match str j "t" with
+  | "inst" => .inst (str j "name") ((arr j "args").map toTy)
+  | "any" => .any
+  | "none" => .none
+  | "union" => .union ((arr j "items").map toTy)
+  | "tuple" => .tuple ((arr j "items").map toTy) (str j "fallback")
+  | "callable" => .callable (toTy (obj j "ret"))
+  | "typevar" => .typeVar
+  | "alias" =>
+    (match obj j "target" with
+      | .null => .aliasUnresolved
+      | t => .alias (toTy t))
+  | "literal" => .literal (toTy (obj j "base"))
+  | "uninhabited" => .uninhabited
+  | _ => .other
+
+def optTy (j : Json) (k : String) : Option Ty :=
+  match obj j k with
+  | .null => none
+  | t => some (toTy t)
+
+partial def tyJ : Ty → Json
+  | .inst c args => Json.mkObj [("t", "inst"), ("name", c), ("args", Json.arr (args.map tyJ).toArray)]
+  | .any => Json.mkObj [("t", "any")]
+  | .none => Json.mkObj [("t", "none")]
+  | .union items => Json.mkObj [("t", "union"), ("items", Json.arr (items.map tyJ).toArray)]
+  | .tuple items fb => Json.mkObj [("t", "tuple"), ("items", Json.arr (items.map tyJ).toArray), ("fallback", fb)]
+  | .callable r => Json.mkObj [("t", "callable"), ("ret", tyJ r)]
+  | .typeVar => Json.mkObj [("t", "typevar")]
+  | .alias t => Json.mkObj [("t", "alias"), ("target", tyJ t)]
+  | .aliasUnresolved => Json.mkObj [("t", "alias"), ("target", Json.null)]
+  | .literal b => Json.mkObj [("t", "literal"), ("base", tyJ b)]
+  | .uninhabited => Json.mkObj [("t", "uninhabited")]
+  | .other => Json.mkObj [("t", "other")]
+
+def valJ : Option Val → Json
+  | none => Json.null
+  | some (.ty t) => tyJ t
+  | some (.info c) => Json.mkObj [("t", "typeinfo"), ("name", c)]
+  | some (.aliasNode t) => Json.mkObj [("t", "typealias"), ("target", tyJ t)]
+  | some (.file m) => Json.mkObj [("t", "module"), ("name", m)]
+
+def toVal (j : Json) : Option Val :=
+  match j with
+  | .null => none
+  | _ =>
+    match str j "t" with
+    | "typeinfo" => some (.info (str j "name"))
+    | "typealias" => some (.aliasNode (toTy (obj j "target")))
+    | "module" => some (.file (str j "name"))
+    | _ => some (.ty (toTy j))
+
+def toSym (j : Json) : Sym :=
+  match str j "s" with
+  | "var" => .var (optTy j "ty")
+  | "func" => .func (optTy j "ty")
+  | "overloaded" => .overloaded
+  | "decorator" => .decorator
+  | "info" => .typeInfo (str j "name")
+  | "alias" => .typeAlias (toTy (obj j "target"))
+  | "module" => .module (str j "name")
+  | _ => .otherSym
+
+def optSym (j : Json) (k : String) : Option Sym :=
+  match obj j k with
+  | .null => none
+  | s => some (toSym s)
+
+def toNames (j : Json) (k : String) : List (String × Sym) :=
+  (arr j k).filterMap (fun kv =>
+    match kv with
+    | .arr #[.str n, s] => some (n, toSym s)
+    | _ => none)
+
+def toClass (j : Json) : ClassInfo :=
+  { fullname := str j "name", mro := strs j "mro", names := toNames j "names", enumMembers := strs j "enum_members",
+    specialCtor := bool j "special_ctor" }
+
+def toCtx (j : Json) : Ctx :=
+  { classes := (arr j "classes").map toClass,
+    modules := (arr j "modules").map (fun m => (str m "name", toNames m "names")),
+    builtins := toNames j "builtins" }
+
+partial def toExpr (j : Json) : Expr :=
+  match str j "k" with
+  | "str" => .strLit
+  | "bytes" => .bytesLit
+  | "int" => .intLit
+  | "float" => .floatLit
+  | "complex" => .complexLit
+  | "name" => .name (str j "fullname") (optSym j "node") (optTy j "narrowed")
+  | "dict" => .dictE
+  | "list" => .listE
+  | "tuple" => .tupleE
+  | "set" => .setE
+  | "member" => .member (toExpr (obj j "e")) (str j "name") (optTy j "narrowed")
+  | "cast" => .castCall (toTy (obj j "ty"))
+  | "call" => .call (toExpr (obj j "callee"))
+  | "unary" => .unary (str j "op") (optTy j "mt")
+  | "op" => .op (str j "op") (optTy j "mt")
+  | "index" => .index (optTy j "mt") (bool j "base_union")
+  | "await" => .await (toExpr (obj j "e"))
+  | "lambda" => .lambda (toExpr (obj j "body"))
+  | "lambda_other" => .lambdaOther
+  | "walrus" => .walrus (toExpr (obj j "target")) (toExpr (obj j "value"))
+  | _ => .other
+
+def toExpected (j : Json) : Expected :=
+  match str j "e" with
+  | "none" => .pyNone
+  | "any" => .pyAny
+  | "type" => .pyType (str j "name")
+  | _ => .named (str j "name")
+
+def expectedJ : Expected → Json
+  | .pyNone => Json.mkObj [("e", "none")]
+  | .pyAny => Json.mkObj [("e", "any")]
+  | .pyType n => Json.mkObj [("e", "type"), ("name", n)]
+  | .named s => Json.mkObj [("e", "named"), ("name", s)]
+
+def optExpectedJ : Option Expected → Json
+  | none => Json.null
+  | some e => expectedJ e
+
+/-- verbs:
+    `types_batch` — one environment (classes, modules, builtins), many expressions; per expression the resolver's
+       answer, the reference's answer, plainness, the `is_same_type` verdict for each listed expectation,
+       `is_mapping_type`, `is_sized_type`, `mypy_type_to_python_type`, and FURB123's verdict per listed callee;
+    `same_batch` — one environment, many (value, question) items;
+    `is_same` — `is_same_type` / `is_subclass` on a given value -/
+def handleTypes (verb : String) (j : Json) : Option Json :=
+  let tbl := Generated.simpleTypes
+  match verb with
+  | "types_batch" =>
+    let Γ := toCtx j
+    let exps := (arr j "expected").map toExpected
+    let callees := strs j "callees"
+    some (Json.mkObj [("r", Json.arr ((arr j "exprs").map (fun ej =>
+      let e := toExpr ej
+      let v := getMypyType Γ e
+      Json.mkObj [
+        ("ty", valJ v),
+        ("ref", valJ (inferRef Γ e)),
+        ("plain", plainB Γ e),
+        ("same", Json.arr (exps.map (fun x => Json.bool (isSameType tbl v [x]))).toArray),
+        ("mapping", isMappingType tbl Γ v),
+        ("sized", isSizedType tbl Γ v),
+        ("pytype", optExpectedJ (mypyTypeToPythonType tbl v)),
+        ("furb123", Json.arr (callees.map (fun c => Json.bool (furb123 tbl Generated.funcNameMapping Γ c e))).toArray)])).toArray)])
+  | "same_batch" =>
+    -- one environment, many (value, question) items: "exact" = is_same_type, "subclass" = is_subclass,
+    -- "furb123" = FURB123's decision for the given callee
+    let Γ := toCtx j
+    some (Json.mkObj [("r", Json.arr ((arr j "items").map (fun it =>
+      let v := toVal (obj it "v")
+      let exps := (arr it "expected").map toExpected
+      match str it "mode" with
+      | "exact" => Json.bool (isSameType tbl v exps)
+      | "subclass" => Json.bool (isSubclass tbl Γ v exps)
+      | "furb123" => Json.bool (furb123V tbl Generated.funcNameMapping (str it "callee") v)
+      | _ => Json.null)).toArray)])
+  | "is_same" =>
+    let Γ := toCtx j
+    let v := toVal (obj j "v")
+    let exps := (arr j "expected").map toExpected
+    some (Json.mkObj [
+      ("same", isSameType tbl v exps),
+      ("each", Json.arr (exps.map (fun x => Json.bool (isSameType tbl v [x]))).toArray),
+      ("subclass", isSubclass tbl Γ v exps),
+      ("pytype", optExpectedJ (mypyTypeToPythonType tbl v))])
+  | _ => none
 
 end RefurbVerif.Wire
